@@ -1729,7 +1729,12 @@ func (n *node) spawn(factory gen.ProcessFactory, options gen.ProcessOptionsExtra
 	p.log.setSource(logSource)
 
 	if err := behavior.ProcessInit(p, options.Args...); err != nil {
-		n.names.Delete(p.name)
+		if p.name != "" {
+			// the name has been visible since it was claimed: tell those
+			// who linked or monitor it that it is gone
+			n.names.Delete(p.name)
+			n.RouteTerminateProcessID(gen.ProcessID{Name: p.name, Node: n.name}, err)
+		}
 		// make sure to notify children that might have been spawned
 		// (during ProcessInit callback) with the enabled LinkParent option
 		messageExit := gen.MessageExitPID{
